@@ -38,12 +38,14 @@ def sortStrings (xs : List String) : List String :=
 
 def normFlt (nz : Bool) (w b : Nat) : Nat := if nz && fltMag w b == 0 then 0 else b
 
-/-- insert a `pair` into a spine sorted by printed key -/
+def underscore (s : String) : String := s.map (fun c => if c == ' ' then '_' else c)
+
+/-- insert a `pair` into a spine sorted by printed key (in the `_` spelling, as the Go side sorts) -/
 partial def insertByKey (e : Val) : Val → Val
   | .scons h t =>
     match e, h with
     | .pair k _, .pair k' _ =>
-      if printVal k ≤ printVal k' then .scons e (.scons h t) else .scons h (insertByKey e t)
+      if underscore (printVal k) ≤ underscore (printVal k') then .scons e (.scons h t) else .scons h (insertByKey e t)
     | _, _ => .scons e (.scons h t)
   | s => .scons e s
 
@@ -65,7 +67,7 @@ partial def erase (nz : Bool) : Val → Val
   | v => v
 
 def canonWith (nz : Bool) (v : Val) : String :=
-  (printVal (erase nz v)).map (fun c => if c == ' ' then '_' else c)
+  underscore (printVal (erase nz v))
 
 def canon (v : Val) : String := canonWith false v
 def canonN (v : Val) : String := canonWith true v
